@@ -8,11 +8,12 @@
    through the cache iff it is a Prepared kind. *)
 From Verif Require Import Base.
 
-Inductive ckind := KPlain | KPlainTx | KPrepDB | KPrepTX.
+Inductive ckind := KPlain | KPlainTx | KPrepDB | KPrepTX | KConn.
 Inductive pstep :=
 | PSess       (* Session(&Session{}) *)
 | PSessPrep   (* Session(&Session{PrepareStmt: true}) *)
-| PBegin.     (* Begin() or the handle given to a Transaction block *)
+| PBegin      (* Begin() or the handle given to a Transaction block *)
+| PConn.      (* the handle given to a Connection block: ConnPool = a dedicated *sql.Conn *)
 
 Definition in_tx (k : ckind) : bool := match k with KPlainTx | KPrepTX => true | _ => false end.
 Definition prepared (k : ckind) : bool := match k with KPrepDB | KPrepTX => true | _ => false end.
@@ -20,8 +21,12 @@ Definition prepared (k : ckind) : bool := match k with KPrepDB | KPrepTX => true
 Definition papply (k : ckind) (st : pstep) : ckind :=
   match st with
   | PSess => k
-  | PSessPrep => match k with KPlain | KPrepDB => KPrepDB | KPlainTx | KPrepTX => KPrepTX end
-  | PBegin => match k with KPlain => KPlainTx | KPrepDB => KPrepTX | k' => k' end
+  | PSessPrep => match k with
+                 | KPlain | KPrepDB | KConn => KPrepDB   (* default arm: a cache handle over the POOL *)
+                 | KPlainTx | KPrepTX => KPrepTX
+                 end
+  | PBegin => match k with KPlain | KConn => KPlainTx | KPrepDB => KPrepTX | k' => k' end
+  | PConn => match k with KPlain | KPrepDB | KConn => KConn | k' => k' end
   end.
 Definition pfinal (base_prepared : bool) (steps : list pstep) : ckind :=
   fold_left papply steps (if base_prepared then KPrepDB else KPlain).
@@ -36,45 +41,80 @@ Record plumb := mk_plumb {
   o_ptx : bool;     (* the driver executed the INSERT on a connection that was inside a transaction *)
   o_pprep : bool;   (* the INSERT went through a prepared statement (driver stmt_exec) *)
   o_psurv : nat;    (* rows of the INSERT present after the rollback *)
-  o_perr : nat      (* errors reported by any call *)
+  o_perr : nat;     (* errors reported by any call *)
+  o_preuse : nat    (* errors of later uses of the same text: non-prepared, from a fresh prepared-mode
+                       session, and inside a prepared-mode transaction (all must work alike) *)
 }.
 
 Definition plumb_model_agrees (p : plumb) : bool :=
   let k := pfinal (p_base p) (p_steps p) in
   Bool.eqb (o_ptx p) (in_tx k) && Bool.eqb (o_pprep p) (prepared k)
-  && (o_psurv p =? (if in_tx k then 0 else 1)) && (o_perr p =? 0).
+  && (o_psurv p =? (if in_tx k then 0 else 1)) && (o_perr p =? 0) && (o_preuse p =? 0).
 
 (* the property: prepared-statement mode is transparent for transactions (a statement issued
    inside Begin/Transaction runs in that transaction whatever sessions were derived, and is undone
    by Rollback), and once enabled it stays enabled for derived handles *)
+(* read off the steps: prepared mode is switched on by the base handle or a Session{PrepareStmt},
+   and left by entering a Connection block *)
+Definition spec_prepared (base : bool) (steps : list pstep) : bool :=
+  fold_left (fun f st => match st with PSessPrep => true | PConn => false | _ => f end) steps base.
+(* derivations gorm accepts: no Connection block inside a transaction *)
+Fixpoint valid_steps (intx : bool) (steps : list pstep) : bool :=
+  match steps with
+  | [] => true
+  | PBegin :: r => valid_steps true r
+  | PConn :: r => negb intx && valid_steps intx r
+  | _ :: r => valid_steps intx r
+  end.
+
 Definition plumb_spec (p : plumb) : bool :=
   let tx := existsb is_begin (p_steps p) in
-  (o_perr p =? 0) && Bool.eqb (o_ptx p) tx && (o_psurv p =? (if tx then 0 else 1))
-  && Bool.eqb (o_pprep p) (p_base p || existsb is_sessprep (p_steps p)).
+  (o_perr p =? 0) && (o_preuse p =? 0) && Bool.eqb (o_ptx p) tx && (o_psurv p =? (if tx then 0 else 1))
+  && Bool.eqb (o_pprep p) (spec_prepared (p_base p) (p_steps p)).
 
 Lemma in_tx_fold steps : forall k, in_tx (fold_left papply steps k) = in_tx k || existsb is_begin steps.
 Proof.
   induction steps as [|st r IH]; intro k; cbn; [rewrite orb_false_r; reflexivity|].
   rewrite IH. destruct st, k; reflexivity.
 Qed.
-Lemma prepared_fold steps : forall k, prepared (fold_left papply steps k) = prepared k || existsb is_sessprep steps.
+(* a Connection block switches to the dedicated connection (not prepared); otherwise prepared
+   mode, once on, stays on *)
+Definition is_conn (st : pstep) := match st with PConn => true | _ => false end.
+Lemma prepared_fold steps : existsb is_conn steps = false ->
+  forall k, prepared (fold_left papply steps k) = prepared k || existsb is_sessprep steps.
 Proof.
-  induction steps as [|st r IH]; intro k; cbn; [rewrite orb_false_r; reflexivity|].
-  rewrite IH. destruct st, k; reflexivity.
+  induction steps as [|st r IH]; intros Hc k; cbn; [rewrite orb_false_r; reflexivity|].
+  cbn in Hc. apply orb_false_elim in Hc. destruct Hc as [Hc1 Hc2].
+  rewrite (IH Hc2). destruct st, k; try reflexivity; discriminate.
 Qed.
 
 Lemma session_stays_in_transaction base steps :
   in_tx (pfinal base steps) = existsb is_begin steps.
 Proof. unfold pfinal. rewrite in_tx_fold. destruct base; reflexivity. Qed.
-Lemma prepared_mode_is_sticky base steps :
+Lemma prepared_mode_is_sticky base steps : existsb is_conn steps = false ->
   prepared (pfinal base steps) = base || existsb is_sessprep steps.
-Proof. unfold pfinal. rewrite prepared_fold. destruct base; reflexivity. Qed.
+Proof. intro Hc. unfold pfinal. rewrite (prepared_fold _ Hc). destruct base; reflexivity. Qed.
+
+Lemma prepared_spec_fold steps : forall k, valid_steps (in_tx k) steps = true ->
+  prepared (fold_left papply steps k) = spec_prepared (prepared k) steps.
+Proof.
+  unfold spec_prepared.
+  induction steps as [|st r IH]; intros k Hv; cbn; [reflexivity|].
+  destruct st; cbn in Hv.
+  - apply IH. exact Hv.
+  - rewrite IH; [destruct k; reflexivity | destruct k; exact Hv].
+  - rewrite IH; [destruct k; reflexivity | destruct k; exact Hv].
+  - apply andb_prop in Hv. destruct Hv as [Hn Hv]. rewrite IH; destruct k; try discriminate; try reflexivity; exact Hv.
+Qed.
 
 (* the model of the plumbing satisfies the specification the checker evaluates *)
-Lemma plumb_model_meets_spec p : plumb_model_agrees p = true -> plumb_spec p = true.
+Lemma plumb_model_meets_spec p : valid_steps false (p_steps p) = true ->
+  plumb_model_agrees p = true -> plumb_spec p = true.
 Proof.
-  unfold plumb_model_agrees, plumb_spec.
-  rewrite session_stays_in_transaction, prepared_mode_is_sticky. intro H.
-  repeat (apply andb_prop in H; let H2 := fresh "G" in destruct H as [H H2]).
-  rewrite H, G, G0, G1. reflexivity.
+  intro Hv. unfold plumb_model_agrees, plumb_spec.
+  rewrite session_stays_in_transaction. unfold pfinal at 1.
+  rewrite prepared_spec_fold by (destruct (p_base p); exact Hv).
+  replace (prepared (if p_base p then KPrepDB else KPlain)) with (p_base p) by (destruct (p_base p); reflexivity).
+  intro H. repeat (apply andb_prop in H; let H2 := fresh "G" in destruct H as [H H2]).
+  repeat (apply andb_true_intro; split); assumption.
 Qed.
